@@ -110,7 +110,8 @@ def cases(tier, seed):
                'fate': ['overwrite', 'truncate', 'delete', 'recreate'][k % 4], 'k': k}
     # reads and assignments through a handle whose array was changed by other means (path / second handle / re-creation
     # with the same byte size but another type or shape)
-    for c in hist_stale.array_cases(random.Random(f'C12:{seed}:stale'), 300 if tier == 'quick' else 4000, seed, read_bias=True):
+    for c in hist_stale.array_cases(random.Random(f'C12:{seed}:stale'), 300 if tier == 'quick' else 4000, seed,
+                                    hops=hist_stale.HOPS + ['h:read', 'h:set', 'h:read', 'h:ctxfail']):
         c['t'] = 'stale'
         yield c
 
